@@ -6,7 +6,7 @@ from . import bodies
 from .gen import gen_algebra, variant_of, Pool, dim_of, grade, gen_value
 from .ops import BINARY_OPS, UNARY_OPS, INFIX, UNARY_INFIX
 
-KINDS = ['int', 'float', 'Fraction', 'nd1', 'nd2', 'sympy', 'mixed', 'ndcont', 'intnd', 'tupcont', 'complex', 'ndconti', 'ndcont2']
+KINDS = ['int', 'float', 'Fraction', 'nd1', 'nd2', 'sympy', 'mixed', 'ndcont', 'intnd', 'tupcont', 'complex', 'ndconti', 'ndcont2', 'bool', 'npscalar', 'zeros', 'negint']
 HEAVY = {'div', 'inv', 'sqrt', 'outertan', 'outerexp', 'outersin', 'outercos', 'proj', 'sw', 'normsq'}
 INNER = {
     'sw': [('bin', 'gp', (0, 1)), ('un', 'reverse', (0,))],
@@ -52,6 +52,15 @@ def value_of_kind(rng, kind, j):
         return gen_value(rng, 'int')
     if kind == 'ndcont2':
         return value_of_kind(rng, 'nd1', j)
+    if kind == 'bool':
+        return rng.random() < 0.5
+    if kind == 'npscalar':
+        return {'np': rng.choice([-1.5, 0.5, 2.0, 3.25]), 'dt': rng.choice(['float64', 'float32', 'int64'])} \
+            if rng.random() < 0.8 else {'np': 2, 'dt': 'int64'}
+    if kind == 'zeros':
+        return 0 if rng.random() < 0.6 else rng.choice([0.0, 1, -2])
+    if kind == 'negint':
+        return rng.choice([-7, -3, -1])
     if kind == 'complex':
         return {'c': [rng.choice([-1.0, 0.5, 2.0]), rng.choice([-2.0, 1.0, 0.5])]}
     raise ValueError(kind)
@@ -63,7 +72,7 @@ def fill(rng, shape, kind):
     k = r['k']
     n = r.pop('n', None)
     if k == 'num':
-        kk = kind if kind in ('int', 'float', 'Fraction', 'sympy', 'complex') else 'float'
+        kk = kind if kind in ('int', 'float', 'Fraction', 'sympy', 'complex', 'bool', 'npscalar', 'zeros', 'negint') else 'float'
         r['v'] = value_of_kind(rng, kk, 9)
         return r
     if k == 'sym':
@@ -96,6 +105,13 @@ def gen_shape(rng, pool, allow_num=True):
     if isinstance(form, tuple) and form[0] == 'dense-bin':
         return {'k': 'dense', 'layout': 'bin', 'n': len(keys)}
     u = rng.random()
+    gs_ = sorted({grade(k) for k in keys})
+    full_ = [k for k in pool.canon if grade(k) in gs_]
+    if keys == full_ and rng.random() < 0.3:
+        ctor = {(1,): 'vector', (2,): 'bivector', (0,): 'scalar'}.get(tuple(gs_))
+        if ctor and rng.random() < 0.6:
+            return {'k': 'gr', 'grades': gs_, 'ctor': ctor, 'n': len(keys)}
+        return {'k': 'gr', 'grades': gs_, 'n': len(keys)}
     if u < 0.6:
         return {'k': 'kv', 'keys': keys, 'n': len(keys)}
     if u < 0.7:
@@ -185,6 +201,35 @@ def gen_trace10(rng, tier='quick', crit_names=()):
             bid = rng.choice(regs_by_alg[ai])
             shapes = [gen_shape(rng, pool, allow_num=rng.random() < 0.1) for _ in range(bodies.LIB[bid]['nargs'])]
             descs.append({'alg': ai, 'kind': 'reg', 'fn': bid, 'shapes': shapes})
+    many = rng.random() < 0.15
+    if many:
+        # many key patterns on one or two cheap operators, visited in two passes (bounded caches, evictions)
+        descs = []
+        names = rng.sample(['gp', 'add', 'op', 'ip', 'sub'], 2)
+        uname = rng.choice(['neg', 'reverse', 'involute', 'conjugate'])
+        ai = 0
+        pool = pools[0]
+        seen = set()
+        for _ in range(rng.randint(12, 45)):
+            if rng.random() < 0.8:
+                if pool.graded:
+                    shapes = [gen_shape(rng, pool, allow_num=False), gen_shape(rng, pool, allow_num=False)]
+                else:
+                    k1 = sorted(rng.sample(pool.canon, rng.randint(1, min(3, len(pool.canon)))), key=pool.pos.get)
+                    k2 = sorted(rng.sample(pool.canon, rng.randint(1, min(3, len(pool.canon)))), key=pool.pos.get)
+                    shapes = [{'k': 'kv', 'keys': k1, 'n': len(k1)}, {'k': 'kv', 'keys': k2, 'n': len(k2)}]
+                dsc = {'alg': ai, 'kind': 'bin', 'op': rng.choice(names), 'form': 'method', 'shapes': shapes}
+            else:
+                if pool.graded:
+                    shapes = [gen_shape(rng, pool, allow_num=False)]
+                else:
+                    k1 = sorted(rng.sample(pool.canon, rng.randint(1, min(4, len(pool.canon)))), key=pool.pos.get)
+                    shapes = [{'k': 'kv', 'keys': k1, 'n': len(k1)}]
+                dsc = {'alg': ai, 'kind': 'un', 'op': uname, 'form': 'method', 'shapes': shapes}
+            key = repr(dsc)
+            if key not in seen:
+                seen.add(key)
+                descs.append(dsc)
     for dsc in descs:
         if not sympy_ok(dsc, d):
             dsc['shapes'] = [({'k': 'kv', 'keys': sh['keys'], 'n': len(sh['keys'])} if sh['k'] == 'sym' else sh)
@@ -192,8 +237,12 @@ def gen_trace10(rng, tier='quick', crit_names=()):
     n_ops = rng.randint(15, 60 if tier == 'quick' else 150)
     kinds_cycle = rng.sample(KINDS, rng.randint(3, len(KINDS)))
     prog = []
+    order = None
+    if many:
+        order = list(range(len(descs))) * 2 + [rng.randrange(len(descs)) for _ in range(10)]
+        n_ops = len(order)
     for i in range(n_ops):
-        dsc = rng.choice(descs)
+        dsc = descs[order[i]] if order is not None else rng.choice(descs)
         kind = rng.choice(kinds_cycle)
         if kind == 'sympy' and not sympy_ok(dsc, d):
             kind = 'int'
